@@ -67,7 +67,7 @@ class CallMixin:
         return super().lookup_name(name, st)
 
     SPEC_BUILTINS = ("implies", "iff", "ite", "dom", "is_none", "some", "has_class", "lang_re", "in_re", "select", "to_real", "str_at",
-                     "is_perm", "abs_real", "same_except", "list_eq", "is_append", "is_empty_list", "unboxed", "ext_const", "bn", "select_eq", "card_int", "is_int", "card_val", "seq_eq", "dict_eq_on", "fresh_obj", "alloc", "is_alloc", "heap_eq", "str_len", "str_from_int")
+                     "joined", "is_perm", "abs_real", "same_except", "list_eq", "is_append", "is_empty_list", "unboxed", "ext_const", "bn", "select_eq", "card_int", "is_int", "card_val", "seq_eq", "dict_eq_on", "fresh_obj", "alloc", "is_alloc", "heap_eq", "str_len", "str_from_int")
 
     def builtin(self, st, name, args, kwargs, node):
         a = args
@@ -165,6 +165,8 @@ class CallMixin:
             if name == "append":
                 x = self.coerce(args[0], ty.t, st, node)
                 nv = SV(ty, T.list_mk(ty, n + 1, z3.Store(arr, n, x.t)))
+                if ty.t == T.Str:      # instance of the recursive definition of "".join: join(l + [x]) == join(l) + x
+                    st.assume(self.joined(nv.t) == z3.Concat(self.joined(recv.t), x.t))
                 for st2 in writeback(nv): yield st2, SV(T.NoneT, z3.BoolVal(True))
                 return
             if name == "insert" and z3.is_int_value(args[0].t) and args[0].t.as_long() == 0:
@@ -198,6 +200,10 @@ class CallMixin:
             if name == "values" or name == "items":
                 yield st, SV(PyFunc, ("dictview", name, recv)); return
         raise VCError("method %s on %s unsupported (line %s)" % (name, ty, getattr(node, "lineno", "?")))
+
+    def joined(self, lst):
+        f = z3.Function("str_join", T.sort_of(T.List(T.Str)), z3.StringSort())
+        return f(lst)
 
     def is_perm(self, ty, a, b):
         f = z3.Function("is_perm_" + ty.name(), T.sort_of(ty), T.sort_of(ty), z3.BoolSort())
